@@ -12,6 +12,7 @@ import (
 	"os"
 	"path/filepath"
 	"regexp"
+	"runtime/pprof"
 	"sort"
 	"strconv"
 	"strings"
@@ -51,6 +52,17 @@ var (
 
 func main() {
 	flag.Parse()
+	if p := os.Getenv("GOSYM_CPUPROFILE"); p != "" {
+		f, _ := os.Create(p)
+		pprof.StartCPUProfile(f)
+		defer pprof.StopCPUProfile()
+		rc := 0
+		func() {
+			rc = runProperty(*flagProp, *flagTier)
+		}()
+		pprof.StopCPUProfile()
+		os.Exit(rc)
+	}
 	if *flagReplay != "" {
 		os.Exit(replayFile(*flagReplay))
 	}
